@@ -43,4 +43,85 @@ def readsOf (sys : Sys P) (k : Node P) : List (Node P) :=
   | some e => refs e
   | none => []
 
+
+/-! ## the whole trace of a request
+
+`runL` is `run` instrumented at every level: it returns the LOG of the request — one entry per
+calculation opened (`Simulation.calculate` → `record_calculation_start`), in chronological order
+(a calculation before the calculations it opens): the node, what it returned, and its direct
+reads with what they returned.  This is the content of `FullTracer.trees` / `get_flat_trace`
+(`dependencies` = the direct reads; a read served from the cache, an input, a substituted spiral
+default or a refused cycle opens no further calculation). -/
+
+/-- one recorded calculation -/
+abbrev Entry (P : Type) := Node P × Res × List (Node P × Res)
+abbrev Log (P : Type) := List (Entry P)
+
+mutual
+def runL (sys : Sys P) : Nat → St P → Nat → P → Option (Res × Bool × St P × Log P)
+  | 0, _, _, _ => none
+  | n+1, s, v, p =>
+    match lookup s.cache (sys.slot (v, p)) with
+    | some (x, g) =>
+      let s' := if sys.slot (v, p) ∈ s.inval.map sys.slot then { s with inval := s.stack ++ s.inval } else s
+      some (.ok x, g, s', [((v, p), .ok x, [])])
+    | none =>
+      match sys.input v p with
+      | some x => some (.ok x, false, s, [((v, p), .ok x, [])])
+      | none =>
+        if (v, p) ∈ s.stack then some (.error .cycle, false, s, [((v, p), .error .cycle, [])])
+        else if sys.msl ≤ (s.stack.filter (fun k => k.1 = v)).length then
+          some (.ok (sys.dflt v), true,
+            { s with inval := (v, p) :: markSpiral v (if sys.markAll then s.stack.length + 1 else sys.msl) s.stack ++ s.inval },
+            [((v, p), .ok (sys.dflt v), [])])
+        else
+        match sys.formula v p with
+        | none =>
+          let x := sys.post v (sys.dflt v)
+          some (.ok x, false, { s with cache := store sys s.cache (sys.slot (v, p)) x false }, [((v, p), .ok x, [])])
+        | some e =>
+          match runLE sys n { s with stack := (v, p) :: s.stack } e with
+          | none => none
+          | some (.error er, g, s', t, l) =>
+            some (.error er, g, { s' with stack := s'.stack.tail }, ((v, p), .error er, t) :: l)
+          | some (.ok x, g, s', t, l) =>
+            some (.ok (sys.post v x), g,
+              { s' with cache := store sys s'.cache (sys.slot (v, p)) (sys.post v x) g, stack := s'.stack.tail },
+              ((v, p), .ok (sys.post v x), t) :: l)
+def runLE (sys : Sys P) : Nat → St P → Expr P → Option (Res × Bool × St P × List (Node P × Res) × Log P)
+  | _, s, .const k => some (.ok k, false, s, [], [])
+  | _, s, .bad => some (.error .fault, false, s, [], [])
+  | n, s, .ref v p =>
+    match runL sys n s v p with
+    | none => none
+    | some (r, g, s', l) => some (r, g, s', [((v, p), r)], l)
+  | n, s, .fail id a => if sys.armed id then some (.error .fault, false, s, [], []) else runLE sys n s a
+  | n, s, .op1 o a =>
+    match runLE sys n s a with
+    | none => none
+    | some (.error e, g, s1, t, l) => some (.error e, g, s1, t, l)
+    | some (.ok x, g, s1, t, l) => some (.ok (sys.f1 o x), g, s1, t, l)
+  | n, s, .op2 o a b =>
+    match runLE sys n s a with
+    | none => none
+    | some (.error e, g, s1, t, l) => some (.error e, g, s1, t, l)
+    | some (.ok x, g1, s1, t1, l1) =>
+      match runLE sys n s1 b with
+      | none => none
+      | some (.error e, g2, s2, t2, l2) => some (.error e, g1 || g2, s2, t1 ++ t2, l1 ++ l2)
+      | some (.ok y, g2, s2, t2, l2) => some (.ok (sys.f2 o x y), g1 || g2, s2, t1 ++ t2, l1 ++ l2)
+end
+
+/-- forget the log -/
+def eraseL (x : Res × Bool × St P × Log P) : Res × Bool × St P := (x.1, x.2.1, x.2.2.1)
+def eraseLE (x : Res × Bool × St P × List (Node P × Res) × Log P) : Res × Bool × St P := (x.1, x.2.1, x.2.2.1)
+
+/-- what the statement asks of one recorded calculation: it lists no read at all (a value served
+    from the cache, an input, a default), or exactly the reads of the formula in force at its
+    node, in order, each with a value — all of them when it completed, a prefix ending at the read
+    that failed otherwise -/
+def TraceOK (sys : Sys P) (en : Entry P) : Prop :=
+  en.2.2 = [] ∨ ∃ e, sys.formula en.1.1 en.1.2 = some e ∧ (en.2.2.map (·.1)) <+: refs e ∧
+    ((∃ x, en.2.1 = .ok x) → en.2.2.map (·.1) = refs e ∧ ∀ kr ∈ en.2.2, ∃ y, kr.2 = .ok y)
+
 end OFCore.Engine
